@@ -59,7 +59,8 @@ def replay_phaseless(sampler, ham_data, prop, prop_data, trial, wave_data, do_sr
             e_est = float(np.asarray(pd["e_estimate"]))
             e = np.where(np.abs(e - e_est) > cap, e_est, e)
             bw = float(np.sum(w))
-            be = float(np.sum(e * w) / bw) if bw != 0.0 else float("nan")
+            # weighted mean: a zero-weight sample contributes nothing, whatever its value
+            be = float(np.sum(np.where(w > 0, e, 0.0) * w) / bw) if bw != 0.0 else float("nan")
             pd["pop_control_ene_shift"] = 0.9 * pd["pop_control_ene_shift"] + 0.1 * be
             block_e.append(be)
             block_w.append(bw)
